@@ -62,39 +62,31 @@ def r1_provenance(rep, facts):
             rep.check(R, key, ok, f'start: {s}, end: {e}', f'span built in `{d.replace(P, "")}` with start: {s}, end: {e}: a reported span would not delimit the item\'s source text', facts.loc(b, node))
     # the table span: header start .. end of the last value, on the *current* table, before the dotted path is walked
     b = facts.body(P + 'state::ParseState::on_keyval')
-    ok = False
+    from .shared import local_origins, method_chain
+    org = local_origins(b['body'])
+    params = [p.get('name') for p in b.get('params', []) for p in walk(p) if p.get('k') == 'p_bind']
     detail = 'assignment to current_table.span not found'
-    stmts = b['body'].get('stmts', [])
-    widen_idx = None
-    descend_idx = None
-    for i, s in enumerate(stmts):
-        for x in walk(s):
-            if x.get('k') == 'assign':
-                l = peel(x['lhs'])
-                if l.get('k') == 'field' and l.get('name') == 'span':
-                    base = peel(l['base'])
-                    on_current = base.get('k') == 'field' and base.get('name') == 'current_table'
-                    rs = [f for node, f in [(nn, {y['name']: y['e'] for y in nn.get('fields', [])}) for nn in walk(x['rhs']) if nn.get('k') == 'struct' and (nn.get('path') or '').endswith('range::Range')]]
-                    if rs:
-                        st, en = peel(rs[0]['start']), peel(rs[0]['end'])
-                        src_s = (peel(st.get('base', {})).get('path') or '').split('#')[0]
-                        src_e = (peel(en.get('base', {})).get('path') or '').split('#')[0]
-                        detail = f'{"current_table" if on_current else "another table"}.span = {src_s}.{st.get("name")}..{src_e}.{en.get("name")}'
-                        if on_current and st.get('name') == 'start' and en.get('name') == 'end' and src_s == 'existing' and src_e == 'value':
-                            widen_idx = i
-            if x.get('k') in ('call', 'mcall') and any(last_seg(c) == 'descend_path' for c in callee_all(x)):
-                descend_idx = i if descend_idx is None else descend_idx
-    # `existing` / `value` come from current_table.span() / value.span()
-    src_ok = False
-    for x in walk(b['body']):
-        if x.get('k') == 'letexpr' or x.get('k') == 'let':
-            init = x.get('init', {})
-            names = [y.get('name') for y in walk(init) if y.get('k') == 'mcall' and y.get('name') == 'span']
-            recvs = [(peel(y['recv']).get('name') or (peel(y['recv']).get('path') or '').split('#')[0]) for y in walk(init) if y.get('k') == 'mcall' and y.get('name') == 'span']
-            if sorted(recvs) == ['current_table', 'value']:
-                src_ok = True
-    ok = widen_idx is not None and src_ok and (descend_idx is None or widen_idx < descend_idx)
-    rep.check(R, 'state::ParseState::on_keyval|table-span', ok, detail, f'the section\'s span is not widened as current_table.span = existing.start..value.end before the key path is walked ({detail}): '
+    widen_pos = None
+    descend_pos = None
+    for i, x in enumerate(walk(b['body'])):
+        if x.get('k') == 'assign':
+            l = peel(x['lhs'])
+            if l.get('k') == 'field' and l.get('name') == 'span':
+                base = peel(l['base'])
+                on_current = base.get('k') == 'field' and base.get('name') == 'current_table'
+                rs = [{y['name']: y['e'] for y in nn.get('fields', [])} for nn in walk(x['rhs']) if nn.get('k') == 'struct' and (nn.get('path') or '').endswith('range::Range')]
+                if rs:
+                    _, sc = method_chain(rs[0]['start'], org)
+                    er, ec = method_chain(rs[0]['end'], org)
+                    detail = f'{"current_table" if on_current else "another table"}.span = {".".join(c.lstrip(".") for c in sc)}..{".".join(c.lstrip(".") for c in ec)}'
+                    start_ok = '.current_table' in sc and 'span' in sc and sc[-1:] == ['.start']
+                    end_ok = er in params and 'span' in ec and ec[-1:] == ['.end'] and '.current_table' not in ec
+                    if on_current and start_ok and end_ok:
+                        widen_pos = i
+        if x.get('k') in ('call', 'mcall') and any(last_seg(c) == 'descend_path' for c in callee_all(x)):
+            descend_pos = i if descend_pos is None else descend_pos
+    ok = widen_pos is not None and (descend_pos is None or widen_pos < descend_pos)
+    rep.check(R, 'state::ParseState::on_keyval|table-span', ok, detail, f'the section\'s span is not widened as current_table.span = <its own span>.start..<the value\'s span>.end before the key path is walked ({detail}): '
               f'values written with dotted keys fall outside their table\'s span', facts.loc(b))
     # array-of-tables span: first.start..last.end
     b = facts.body(P + 'state::ParseState::finalize_table')
